@@ -8,7 +8,8 @@ from cxx2c import Ty
 
 
 class MSpec:
-    def __init__(self, name, mode, ensures, requires=None, arrays=None, models=None, timeout=60, tier="quick", known=None, alias=None, tol=1e-4, nonneg=False):
+    def __init__(self, name, mode, ensures, requires=None, arrays=None, models=None, timeout=60, tier="quick", known=None, alias=None, tol=1e-4, nonneg=False, ranges=False):
+        self.ranges = ranges
         self.name, self.mode, self.ensures = name, mode, ensures
         self.requires = requires
         self.arrays = arrays or {}
@@ -73,7 +74,7 @@ def run_mjob(job):
     res = dict(unit=U.name, target=ms.name, status="unknown", obligations=[], time=0.0, cmds=["z3 (python API %s) on VCs from lib/mathvc.py, mode=%s" % (z3.get_version_string(), ms.mode)],
                reason="", is_lemma=False, replaced=[], functions=[ms.name], backend="z3-" + ms.mode, solver_time=0.0)
     try:
-        ev = Evaluator(U.tr, ms.mode, models=dict(U.math_models, **ms.models))
+        ev = Evaluator(U.tr, ms.mode, models=dict(U.math_models, **ms.models), ranges=ms.ranges)
         st = State()
         f, args, objs = setup_call(U, ms, ev, st)
         pre = st.fork()
@@ -172,9 +173,10 @@ def predicted_outputs(model, RET, Q, solver):
 
 
 class MLemma:
-    def __init__(self, name, mode, fn, uses=(), timeout=60, tier="quick", models=None, tol=1e-4):
+    def __init__(self, name, mode, fn, uses=(), timeout=60, tier="quick", models=None, tol=1e-4, ranges=False):
         self.name, self.mode, self.fn, self.uses = name, mode, fn, list(uses)
         self.timeout, self.tier = timeout, tier
+        self.ranges = ranges
         self.models = models or {}
         self.is_lemma = True
         self.tol = tol
@@ -190,18 +192,22 @@ class Ctx:
         self.st.frame = self.fr
         self.where = {}
         self.called = []
+        self.calls = []      # call graph for replay: (fname, [arg descriptors], result view / scalar, is_ctor)
+        self.inputs = []     # (cname, name) of symbolic objects ; scalars: (None, name)
 
     def new(self, cname, name):
         ty = self.U.ctype_to_ty(cname)
         v = self.ev.alloc(self.st, ty, "in_" + name)
         self.fr.keys.append(name)
         self.st.heap[(self.fr.id, name)] = v
+        self.inputs.append((cname, name))
         if isinstance(v, C):
             self.where[v.id] = name
-            return View(self.st, v)
+            return View(self.st, v, name)
         return v
 
     def scalar(self, name, nonneg=False):
+        self.inputs.append((None, name))
         return self.ev.sym("in_" + name)
 
     def const(self, v):
@@ -211,10 +217,37 @@ class Ctx:
         f = self.U.tr.funcs.get(fname)
         if f is None:
             raise ExtractionBreak("math lemma: no extracted function '%s'" % fname)
-        if len(args) != len(f.params):
-            raise ExtractionBreak("math lemma: %s expects %d arguments" % (fname, len(f.params)))
-        cargs = []
-        for (pn, pt), a in zip(f.params, args):
+        params = list(f.params)
+        result_obj = None
+        pre = []
+        if f.kind == "CXXConstructorDecl":
+            # construct into a fresh object
+            selfty = params[0][1].to
+            v = self.ev.alloc(self.st, selfty, "obj!%d" % len(self.fr.keys), symbolic=False)
+            nm = "!obj%d" % len(self.fr.keys)
+            self.fr.keys.append(nm)
+            self.st.heap[(self.fr.id, nm)] = v
+            self.where[v.id] = nm
+            result_obj = v
+            pre = [Ptr(self.fr, nm)]
+            params = params[1:]
+        args = list(args)
+        while len(args) < len(params):
+            pt = params[len(args)][1]
+            if pt.kind == "rec":
+                args.append(View(self.st, self.ev.alloc(self.st, pt, "tag", symbolic=False)))
+            else:
+                break
+        if len(args) != len(params):
+            raise ExtractionBreak("math lemma: %s expects %d arguments" % (fname, len(params)))
+        cargs = list(pre)
+        desc = []
+        for (pn, pt), a in zip(params, args):
+            if isinstance(a, View):
+                desc.append(("view", a._path, pt.kind == "ptr"))
+            else:
+                desc.append(("scalar", a, pt.kind == "ptr"))
+        for (pn, pt), a in zip(params, args):
             if isinstance(a, View):
                 if pt.kind == "ptr":
                     nm = self.where.get(a._c.id)
@@ -239,12 +272,18 @@ class Ctx:
         saved = self.st.frame
         r = self.ev.call(fname, cargs, self.st)
         self.st.frame = saved
-        if isinstance(r, C):
-            return View(self.st, r)
-        if isinstance(r, Ptr):
+        rname = "r%d" % len(self.calls)
+        if result_obj is not None:
+            out = View(self.st, result_obj, rname)
+        elif isinstance(r, C):
+            out = View(self.st, r, rname)
+        elif isinstance(r, Ptr):
             t = r.get(self.st)
-            return View(self.st, t) if isinstance(t, C) else t
-        return r
+            out = View(self.st, t, rname) if isinstance(t, C) else t
+        else:
+            out = r
+        self.calls.append((fname, desc, out, result_obj is not None))
+        return out
 
 
 def run_mlemma(job):
@@ -253,7 +292,7 @@ def run_mlemma(job):
     res = dict(unit=U.name, target=ml.name, status="unknown", obligations=[], time=0.0, cmds=["z3 (python API %s) on VCs from lib/mathvc.py, mode=%s" % (z3.get_version_string(), ml.mode)],
                reason="", is_lemma=True, replaced=[], functions=[], backend="z3-" + ml.mode, solver_time=0.0)
     try:
-        ev = Evaluator(U.tr, ml.mode, models=dict(U.math_models, **ml.models))
+        ev = Evaluator(U.tr, ml.mode, models=dict(U.math_models, **ml.models), ranges=ml.ranges)
         ctx = Ctx(U, ev)
         assumptions, goals = ml.fn(ctx)
         res["functions"] = sorted(set(ctx.called))
@@ -275,16 +314,27 @@ def run_mlemma(job):
                 if key not in seen:
                     seen.add(key)
                     allgoals.append(("safety", lab, g))
+        proved_facts = []
         for i, (kind, lab, g) in enumerate(allgoals):
             if isinstance(g, (list, tuple)):
                 g = z3.And(*g)
-            stt, model, dt, solver = prove(ev, assumptions, g, timeout_ms=int(ml.timeout * 1000))
+            stt, model, dt, solver = prove(ev, assumptions, g, timeout_ms=int(ml.timeout * 1000 / 2))
             res["solver_time"] += dt
+            if stt == "unknown" and proved_facts:
+                # retry with the facts already proved (about the same terms, under the same hypotheses) as lemmas
+                stt, model, dt, solver = prove(ev, assumptions + proved_facts, g, timeout_ms=int(ml.timeout * 1000 / 2))
+                res["solver_time"] += dt
+            if stt == "proved":
+                proved_facts.append(g)
             ob = dict(id="%s.math.%d" % (ml.name, i + 1), kind="math-" + kind, label=lab if kind == "lemma" else None,
                       status={"proved": "SUCCESS", "refuted": "FAILURE", "unknown": "UNKNOWN"}[stt], desc="%s %s [z3 %s, %.2fs]" % (kind, lab, ml.mode, dt), line=0, fn=ml.name)
             if stt == "refuted":
                 n_fail += 1
                 ob["cex"] = {d.name(): dict(data=str(model[d]), binary=None, type=ml.mode) for d in model.decls() if d.name().startswith("in_")}
+                try:
+                    ob["callgraph"] = lemma_callgraph(ctx, model)
+                except Exception as ex:
+                    ob["callgraph"] = {"error": repr(ex)}
             elif stt == "unknown":
                 n_unk += 1
             res["obligations"].append(ob)
@@ -300,3 +350,34 @@ def run_mlemma(job):
         res["reason"] = "mathvc: %s" % ex
     res["time"] = time.time() - t0
     return res
+
+
+def lemma_callgraph(ctx, model):
+    """picklable description of the lemma's calls with the outputs the verifier predicts at the model"""
+    def mval(t):
+        if isinstance(t, (int, float)):
+            return str(t)
+        if t is None:
+            return None
+        return str(model.eval(mathvc.tonum(t) if not z3.is_bool(t) else t, model_completion=True))
+    calls = []
+    for (fname, desc, out, is_ctor) in ctx.calls:
+        args = []
+        for d in desc:
+            if d[0] == "view":
+                args.append(dict(kind="view", path=d[1], byptr=d[2]))
+            else:
+                args.append(dict(kind="scalar", value=mval(d[1]), byptr=d[2]))
+        pred = {}
+        items = []
+        if isinstance(out, View):
+            flat_view(out._path, out, items)
+        elif out is not None:
+            items.append(("r%d" % len(calls), out))
+        for nm, t in items:
+            try:
+                pred[nm] = mval(t)
+            except Exception:
+                pass
+        calls.append(dict(fname=fname, args=args, predicted=pred, is_ctor=is_ctor, scalar_result=not isinstance(out, View)))
+    return dict(inputs=[list(i) for i in ctx.inputs], calls=calls)
